@@ -402,3 +402,16 @@ func foreignEvolvedObject(ch *Choices) []byte {
 	}
 	return b.Bytes()
 }
+
+// deepBadStream: d nested one-element lists whose innermost element is a long-form instance of a
+// class index that was never defined. A decoder fails on it deep inside its recursion (on this tree:
+// by a recovered index panic).
+func deepBadStream(d int) []byte {
+	var b bytes.Buffer
+	for i := 0; i < d; i++ {
+		b.WriteByte(0x79)
+	}
+	b.WriteByte('O')
+	b.WriteByte(0xbf) // class #47
+	return b.Bytes()
+}
